@@ -207,7 +207,7 @@ class Scenario:
                            'c=%d' % dep.concurrent, 'cache' if dep.cache else 'no-cache'])
 
     # ------------------------------------------------------------------ helpers
-    def make_files(self, user):
+    def make_files(self, user, big=False):
         """-> (argument list, {recorded path: bytes})"""
         rng = self.rng
         d = self.wd / 'src' / f's{self.nsrc}'
@@ -221,7 +221,12 @@ class Scenario:
             c = b''.join(rng.choice(self.pool) for _ in range(rng.choice([1, 2, 3, 5])))
             return c[:rng.randint(1, len(c))] if rng.random() < 0.3 else c
         shape = rng.random()
-        if shape < 0.45:
+        if big:
+            # many chunks: more than the pipeline between chunking and uploading holds
+            (d / 'big.bin').write_bytes(b''.join(rng.choice(self.pool) for _ in range(45)) + rng.randbytes(700))
+            (d / 'small').write_bytes(content())
+            args = [d]
+        elif shape < 0.45:
             for j in range(rng.choice([1, 2, 3])):
                 (d / f'f{j}').write_bytes(content())
             if rng.random() < 0.4:
@@ -404,12 +409,12 @@ class Scenario:
                     self.v('partial_object', f'after {what} a snapshot object is visible whose contents do not hash to its name')
 
     # ------------------------------------------------------------------ operations
-    def op_snapshot(self, user, args, files, repeat_of=None, inject=None, what='snapshot'):
+    def op_snapshot(self, user, args, files, repeat_of=None, inject=None, what='snapshot', slow=False):
         before, _ = self.dep.disk()
         note = 'n%d' % self.dep.ncmd if self.rng.random() < 0.3 else None
         res = self.dep.run('snapshot', *args, *(['-n', note] if note else []), user=user, inject=inject)
         after, temps = self.dep.disk()
-        if inject and not res.ok:
+        if inject and not res.ok and not slow:
             return res, before, after, temps
         self.must(res, what)
         name = self.record_snapshot(user, files, before, after, note)
@@ -492,9 +497,12 @@ class Scenario:
             for row in rows:
                 if len(row) > names_col and len(row[names_col].strip()) >= 32:
                     seen[row[names_col].strip()] = [c.strip() for c in row]
-            if set(seen) != fam_visible:
+            if set(seen) - fam_visible:
                 self.v('visibility', f'list-snapshots{" --columns " + cols if cols else ""} shows {len(seen)} snapshot(s), the caller\'s key family has {len(fam_visible)}',
-                       {'caller': user['name'], 'extra': sorted(set(seen) - fam_visible)[:2], 'missing': sorted(fam_visible - set(seen))[:2]})
+                       {'caller': user['name'], 'extra': sorted(set(seen) - fam_visible)[:2]})
+            if fam_visible - set(seen):
+                self.v('snapshot_not_listed', f'list-snapshots{" --columns " + cols if cols else ""} does not show {len(fam_visible - set(seen))} snapshot(s) of the caller\'s '
+                                              'key family whose objects are in the repository', {'caller': user['name'], 'missing': sorted(fam_visible - set(seen))[:2]})
             if cols is None:
                 for n, row in seen.items():
                     if n in present and len(row) >= 3:
@@ -565,13 +573,15 @@ class Scenario:
         user = rng.choice(self.users)
         own = [n for n, s in self.present(objs).items() if s['owner'] == user['name']]
         victim = rng.choice(['snapshot', 'delete', 'clean']) if own else 'snapshot'
-        if self.kind == 'kill':
+        if self.kind == 'kill' or (self.kind == 'oserror' and rng.random() < 0.3):
+            if self.kind == 'oserror':
+                victim = 'snapshot'          # leaves garbage for the cleans that follow
             fn = rng.choice(['replace', 'replace', 'unlink', 'tempfile'] if victim == 'snapshot' else ['unlink', 'unlink', 'scandir', 'replace'])
             inject = [{'fn': fn, 'k': rng.randint(0, 7), 'when': rng.choice(['before', 'after']), 'action': 'kill'}]
         else:
             if victim == 'snapshot':
                 victim = 'clean'
-            inject = [{'fn': 'scandir', 'k': rng.randint(0, 9), 'when': 'before', 'action': rng.choice(['EACCES', 'EIO', 'ENOENT'])}]
+            inject = [{'fn': 'scandir', 'k': rng.randint(0, 9), 'when': 'before', 'action': rng.choice(['EACCES', 'EACCES', 'EIO', 'ENOENT'])}]
         what = f'{victim} with {inject[0]["action"]} at {inject[0]["fn"]} #{inject[0]["k"]} ({inject[0]["when"]})'
         if victim == 'snapshot':
             args, files = self.make_files(user)
@@ -625,9 +635,11 @@ class Scenario:
 
     def history(self):
         rng = self.rng
-        weights = {'snapshot': 5, 'repeat': 2, 'delete': 3, 'delete_foreign': 1, 'clean': 2, 'observe': 1.5, 'relocate': 0.6}
-        if self.kind in ('kill', 'oserror'):
+        weights = {'snapshot': 5, 'repeat': 2, 'delete': 3, 'delete_foreign': 1, 'clean': 2, 'observe': 1.5, 'relocate': 1.2}
+        if self.kind == 'kill':
             weights['faulted'] = 4
+        if self.kind == 'oserror':
+            weights['faulted'] = 7
         kinds, ws = zip(*weights.items())
         for _ in range(self.nops):
             kind = rng.choices(kinds, ws)[0]
@@ -645,8 +657,10 @@ class Scenario:
             if kind == 'relocate' and (self.relocated or not present):
                 kind = 'observe'
             if kind == 'snapshot':
-                args, files = self.make_files(user)
-                self.op_snapshot(user, args, files)
+                slow = rng.random() < 0.25
+                args, files = self.make_files(user, big=slow)
+                # a slow backend: object creation takes longer than chunking, the queue between them stays full
+                self.op_snapshot(user, args, files, inject=[{'fn': 'slow_io', 'seconds': 0.04}] if slow else None, slow=slow)
             elif kind == 'repeat':
                 prev = rng.choice(list(present.values()))
                 mate = rng.choice([u for u in self.users if u['fam'] == prev['fam']])
